@@ -176,19 +176,22 @@ func mkbin(op string, a, b *T, ty types.Type) *T {
 	case "/":
 		return &T{Op: "quo", A: []*T{a, b}, Ty: ty}
 	case "%":
+		if a.IsConstVal(0) {
+			return tconst(0, ty) // 0 % x == 0 for every non-zero x (a zero modulus panics either way)
+		}
 		return &T{Op: "rem", A: []*T{a, b}, Ty: ty}
 	case "==":
 		return mkeq(a, b)
 	case "!=":
 		return mknot(mkeq(a, b))
 	case "<":
-		return &T{Op: "lt", A: []*T{a, b}}
+		return mkcmp("lt", a, b)
 	case "<=":
-		return &T{Op: "le", A: []*T{a, b}}
+		return mkcmp("le", a, b)
 	case ">":
-		return &T{Op: "lt", A: []*T{b, a}}
+		return mkcmp("lt", b, a)
 	case ">=":
-		return &T{Op: "le", A: []*T{b, a}}
+		return mkcmp("le", b, a)
 	}
 	return &T{Op: "bin:" + op, A: []*T{a, b}, Ty: ty}
 }
@@ -378,4 +381,18 @@ func (l *Lin) equal(o *Lin) bool {
 		}
 	}
 	return true
+}
+
+func mkcmp(op string, a, b *T) *T {
+	if a.IsConst() && b.IsConst() && (isSigned(a.Ty) || isSigned(b.Ty) || (a.C >= 0 && b.C >= 0)) {
+		r := a.C < b.C
+		if op == "le" {
+			r = a.C <= b.C
+		}
+		if r {
+			return tconst(1, nil)
+		}
+		return tconst(0, nil)
+	}
+	return &T{Op: op, A: []*T{a, b}}
 }
